@@ -132,7 +132,7 @@ def simplify(d):
 
 
 class C18Spec(v_okl.Spec):
-    quick, thorough = (5, 24), (200, 40)
+    quick, thorough = (5, 24), (300, 24)
     program = staticmethod(program)
     render = staticmethod(render)
     valid = staticmethod(valid)
